@@ -1,4 +1,6 @@
 """Pure semantic helpers: truthiness, equality, coercion, constants, isinstance (DESIGN 2.3)."""
+import re
+
 from . import ty as T
 from .core import SV, PyV, Unsupported
 from .smt import AND, OR, NOT, ITE, EQ, IMPLIES, slit, ilit
@@ -156,6 +158,11 @@ class Sem:
             return SV("(qn_uri %s)" % v.t, T.IDENT)
         if ty.kind == "ref" and v.ty.kind == "ref":
             return SV(v.t, ty)
+        if ty.kind == "tuple" and v.ty.kind == "tuple" and len(ty.args) == len(v.ty.args):
+            src = S.sort(v.ty)
+            dst = S.sort(ty)
+            comps = [self.coerce(SV("(%s_%d %s)" % (src, i, v.t), a), b, what).t for i, (a, b) in enumerate(zip(v.ty.args, ty.args))]
+            return SV("(mk_%s %s)" % (dst, " ".join(comps)), ty)
         if ty == T.PYOBJ:
             return v
         raise Unsupported("cannot coerce %r to %r %s" % (v.ty, ty, what))
@@ -311,9 +318,18 @@ class Sem:
                 return "false"
         raise Unsupported("== between %r and %r" % (a.ty, b.ty))
 
+    _CONSTQN = re.compile(r'^\(mkQN \(mkNs ("(?:[^"]|"")*") ("(?:[^"]|"")*")\) ("(?:[^"]|"")*")\)$')
+
+    def qn_uri_term(self, t):
+        """(qn_uri t), with the URI of a constant qualified name folded into one string literal"""
+        m = self._CONSTQN.match(t)
+        if m:
+            return '"' + m.group(2)[1:-1] + m.group(3)[1:-1] + '"'
+        return "(qn_uri %s)" % t
+
     def uri_of(self, v):
         if v.ty == T.QN:
-            return "(qn_uri %s)" % v.t
+            return self.qn_uri_term(v.t)
         if v.ty == T.IDENT:
             return v.t
         raise Unsupported("uri of %r" % (v.ty,))
@@ -729,7 +745,7 @@ class Sem:
         if isinstance(k, PyV):
             raise Unsupported("python-level key")
         if k.ty == T.QN:
-            return "(qn_uri %s)" % k.t
+            return self.qn_uri_term(k.t)
         if k.ty.kind == "opt" and k.ty.args[0] == T.QN:
             return "(qn_uri %s)" % self.cx.sorts.the(T.QN, k.t)
         raise Unsupported("QualifiedName-keyed dict indexed with %r" % (k.ty,))
